@@ -112,8 +112,12 @@ def thorough_templates(seed: int) -> list[tuple[Any, ...]]:
             label = ''
         else:
             n = int(rng.integers(1, 4 if lvl <= 2 else 3))
-            if kind != 'unitary':
-                n = max(n, 1)
+            if kind != 'unitary' and n == 1 and rng.random() < 0.85:
+                n = 2   # one-qudit states/systems crash (C03): a few only
+            if kind == 'state' and lvl >= 2 and rng.random() < 0.75:
+                lvl = 1  # state preparation crashes in its scan above level 1
+            if kind == 'system' and lvl == 4 and rng.random() < 0.7:
+                lvl = 2
             extra = int(rng.random() < 0.15)
             if kind == 'unitary':
                 label = str(rng.choice(cc.UNITARY_LABELS))
@@ -126,7 +130,7 @@ def thorough_templates(seed: int) -> list[tuple[Any, ...]]:
                 n = 2
             if kind in ('state', 'system') and lvl >= 2 and rng.random() < 0.85:
                 o['eps'] = 1e-6   # level >= 2 state workflows stall below ~1e-7
-        if rng.random() < 0.06 and lvl <= 2 and n <= 2:
+        if rng.random() < 0.06 and lvl <= 2 and n <= 2 and kind in ('circuit', 'unitary'):
             o['radix'] = 3
             gs = 'default3'
             o.pop('measure', None)
